@@ -732,4 +732,78 @@ theorem partial_prefix_sep_special_g (s : List Nat) (fv : Bool) (sp : Special) (
 
 end
 
+/-! ## the heads of valid special strings -/
+
+/-- `OptionsBuilder::build` only accepts special strings that start with `N`/`n` (NaN) resp. `I`/`i` (inf, infinity) -/
+theorem special_head_cases (o : POpts) (hopt : optionsError o = none) (str : List Nat)
+    (hstr : o.nan = some str ∨ o.inf = some str ∨ o.infinity = some str) :
+    ∃ y ys, str = y :: ys ∧ (y = 73 ∨ y = 105 ∨ y = 78 ∨ y = 110) := by
+  have hhead : ∀ (st : List Nat) (a b : Nat), (a = 73 ∧ b = 105) ∨ (a = 78 ∧ b = 110) →
+      (st.isEmpty || !(st.head? = some a || st.head? = some b)) = false →
+      ∃ y ys, st = y :: ys ∧ (y = 73 ∨ y = 105 ∨ y = 78 ∨ y = 110) := by
+    intro st a b hab hs
+    cases st with
+    | nil => simp at hs
+    | cons y ys =>
+      refine ⟨y, ys, rfl, ?_⟩
+      simp only [List.isEmpty_cons, List.head?_cons, Option.some.injEq, Bool.false_or, Bool.not_eq_false',
+        Bool.or_eq_true, decide_eq_true_eq] at hs
+      rcases hab with ⟨rfl, rfl⟩ | ⟨rfl, rfl⟩ <;> rcases hs with rfl | rfl <;> simp
+  unfold optionsError at hopt
+  simp only at hopt
+  split at hopt
+  · cases hopt
+  split at hopt
+  · cases hopt
+  split at hopt
+  · cases hopt
+  · next hnan =>
+    split at hopt
+    · cases hopt
+    · split at hopt
+      · cases hopt
+      · next hinf =>
+        rcases hstr with h | h | h
+        · rw [h] at hnan
+          simp only at hnan
+          by_cases hc : (str.isEmpty || !(decide (str.head? = some 78) || decide (str.head? = some 110))) = true
+          · rw [if_pos hc] at hnan; cases hnan
+          · exact hhead str 78 110 (Or.inr ⟨rfl, rfl⟩) (by simpa using hc)
+        · rw [h] at hinf
+          simp only at hinf
+          by_cases hc : (str.isEmpty || !(decide (str.head? = some 73) || decide (str.head? = some 105))) = true
+          · rw [if_pos hc] at hinf; cases hinf
+          · exact hhead str 73 105 (Or.inl ⟨rfl, rfl⟩) (by simpa using hc)
+        · rw [h] at hopt
+          simp only at hopt
+          split at hopt
+          · cases hopt
+          · next hinfy =>
+            by_cases hc : (str.isEmpty || !(decide (str.head? = some 73) || decide (str.head? = some 105))) = true
+            · rw [if_pos hc] at hinfy; cases hinfy
+            · exact hhead str 73 105 (Or.inl ⟨rfl, rfl⟩) (by simpa using hc)
+
+theorem xor_head_cases (x y : Nat) (hy : y = 73 ∨ y = 105 ∨ y = 78 ∨ y = 110)
+    (h : Nat.xor x y = 0 ∨ Nat.xor x y = 32) : x = 73 ∨ x = 105 ∨ x = 78 ∨ x = 110 := by
+  have hc : Nat.xor (Nat.xor x y) y = x := by
+    show (x ^^^ y) ^^^ y = x
+    rw [Nat.xor_assoc, Nat.xor_self, Nat.xor_zero]
+  rcases h with h | h <;> rw [h] at hc <;> rcases hy with rfl | rfl | rfl | rfl <;> subst hc <;> decide
+
+/-- valid options and a separator that is none of `I i N n` -/
+theorem specialHeadsNoSep_of_valid (c : Cfg) (o : POpts) (hopt : optionsError o = none)
+    (hs : c.digitSeparator ≠ 73 ∧ c.digitSeparator ≠ 105 ∧ c.digitSeparator ≠ 78 ∧ c.digitSeparator ≠ 110) :
+    SpecialHeadsNoSep c o := by
+  intro str hstr y ys hy x hx
+  obtain ⟨y2, ys2, e, hy2⟩ := special_head_cases o hopt str hstr
+  rw [hy] at e
+  simp only [List.cons.injEq] at e
+  obtain ⟨rfl, _⟩ := e
+  have hxc := xor_head_cases x y hy2 hx
+  cases hsx : c.isSep x with
+  | false => rfl
+  | true =>
+    have := isSep_eq c x hsx
+    omega
+
 end LexVerif.Proof.C11
